@@ -20,7 +20,7 @@ ASSUMPTIONS = ["a history ends at the first error exit (verif.util.error termina
                "PIT randomisation (variables with x0/x1) is outside the model: see the known finding",
                "ensemble-derived fields are not part of the request menu"]
 ALL = 99
-LEVEL = "model_checking"
+LEVEL = "proof"
 
 
 def menu(ds, sizes):
